@@ -381,7 +381,8 @@ func (fx *fixture) comboCase() []*fcase {
 		a, b = b, a
 	}
 	na, nb := comboOrder[a], comboOrder[b]
-	st := fx.newState(0)
+	// keep little of the honest quorum so that both classes are needed
+	st := fx.newState(2 + r.C.Intn("combo-keep-nothing", 2))
 	need := fx.Q - st.claimed()
 	okA := vforgers[na].make(fx, st, (need+1)/2)
 	var rest uint64
